@@ -116,7 +116,7 @@ fn run_plain(cx: &mut Ctx, s: &Schema, t: &Table, db: &mut Db, rows_sx: &str, q:
     let big = t.rows.len() > 200;
     for (w, h) in variants {
         let huge = t.rows.len() >= 1000;
-        if (big && w.is_some() && k % (if huge { 32 } else { 8 }) != 0) || (huge && w.is_none() && k % 4 != 0) {
+        if (big && w.is_some() && k % (if huge { 64 } else { 8 }) != 0) || (huge && w.is_none() && k % 8 != 0) || (!huge && big && k % 2 != 0) {
             continue;
         }
         let sql2 = q.sql_with(s, w, h);
@@ -225,8 +225,8 @@ fn run_grouped(cx: &mut Ctx, s: &Schema, t: &Table, db: &mut Db, rows_sx: &str, 
         let with_both = format!("{} WHERE {} GROUP BY {} HAVING COUNT(*) >= 0 AND {}", sel, conj.join(" AND "), key_name, VAC_HAVING[(k + 1) % VAC_HAVING.len()]);
         let big = t.rows.len() > 200;
         let huge = t.rows.len() >= 1000;
-        let mut list = if huge && k % 4 != 0 { vec![] } else { vec![with_having] };
-        if !big || k % (if huge { 32 } else { 8 }) == 0 {
+        let mut list = if (huge && k % 8 != 0) || (big && k % 2 != 0) { vec![] } else { vec![with_having] };
+        if !big || k % (if huge { 64 } else { 8 }) == 0 {
             list.push(with_where);
             if k % 3 == 0 {
                 list.push(with_both);
@@ -234,7 +234,9 @@ fn run_grouped(cx: &mut Ctx, s: &Schema, t: &Table, db: &mut Db, rows_sx: &str, 
         }
         for sql2 in list {
             columnar(true);
+            let t0 = std::time::Instant::now();
             let out = db.query(&sql2);
+            cx.rep.add(&format!("ms_vacuous_grouped|{}", size_class(t.rows.len())), t0.elapsed().as_millis() as u64);
             cx.rep.count("vacuous_grouped");
             let ok = matches!(&out, Out::Rows(got) if got.len() == want.len()
                 && got.iter().all(|r| match want.get(&canon::val(&r[0])) {
